@@ -100,6 +100,7 @@ type fieldCase struct {
 	varMod   bool // suitable as carrier of the variable-modulus operations
 	newChain func(p *program) chainRunner
 	newAdv   func(kind string) advRunner
+	newPad   func() padRunner
 }
 
 func (fc *fieldCase) modBits() int { return fc.mod.BitLen() }
@@ -116,6 +117,7 @@ func mkCase[T emulated.FieldParams](name string, custom, heavy, varMod bool) *fi
 		prime: t.IsPrime(), custom: custom, heavy: heavy, varMod: varMod,
 		newChain: func(p *program) chainRunner { return &chainRun[T]{prog: p} },
 		newAdv:   func(kind string) advRunner { return &advRun[T]{kind: kind} },
+		newPad:   func() padRunner { return padRun[T]{} },
 	}
 }
 
